@@ -10,6 +10,7 @@ package httpserver
 import (
 	"bufio"
 	"bytes"
+	"compress/gzip"
 	"fmt"
 	"io"
 	"log"
@@ -331,9 +332,29 @@ func c07Chunked(body []byte, size int, term bool) []byte {
 
 type c07Front struct {
 	m   *mux
+	mm  context.MuxMapper
 	srv *http.Server
 	ln  net.Listener
 	pl  *pipeline.Pipeline
+}
+
+// Reload hands the running mux a new HTTPServer spec, as HTTPServer.Inherit does.
+func (f *c07Front) Reload(serverYAML string) {
+	sspec, err := supervisor.NewSpec(serverYAML)
+	if err != nil {
+		panic(fmt.Sprintf("server spec: %v\n%s", err, serverYAML))
+	}
+	f.m.reload(sspec, f.mm)
+}
+
+// c07Gzip is the gzip oracle: compress/gzip in one shot (default level, empty header),
+// deliberately not easegress' own readers.GZipCompressReader.
+func c07Gzip(b []byte) []byte {
+	var w bytes.Buffer
+	zw := gzip.NewWriter(&w)
+	zw.Write(b)
+	zw.Close()
+	return w.Bytes()
 }
 
 func c07StartFront(serverYAML, pipelineYAML string) *c07Front {
@@ -359,7 +380,7 @@ func c07StartFront(serverYAML, pipelineYAML string) *c07Front {
 		srv.ErrorLog = log.New(io.Discard, "", 0)
 	}
 	go srv.Serve(ln)
-	return &c07Front{m: m, srv: srv, ln: ln, pl: pl}
+	return &c07Front{m: m, mm: mm, srv: srv, ln: ln, pl: pl}
 }
 
 func (f *c07Front) Addr() string { return f.ln.Addr().String() }
